@@ -46,6 +46,8 @@ def gen_items(rng, n, start=0):
 
 def generate(rng, tier):
     n = rng.choice([0, 1, 2, 3, 5, 8, 12])
+    if rng.random() < 0.004:
+        n = rng.choice([130, 1100])
     items = gen_items(rng, n)
     chain = []
     for _ in range(rng.choice([1, 1, 2, 3, 4, 6])):
